@@ -81,6 +81,11 @@ impl FeoxStore {
         self.write_buffer.as_ref().map(|wb| wb.verif_shard_of(key))
     }
 
+    /// H15: per write-buffer shard (queue length, counter); empty in memory-only mode
+    pub fn verif_shard_backlog(&self) -> Vec<(usize, usize)> {
+        self.write_buffer.as_ref().map(|wb| wb.verif_shard_backlog()).unwrap_or_default()
+    }
+
     pub fn verif_clock_value(&self, shard: usize) -> u64 {
         self.version_clock.shards[shard].load(Ordering::Relaxed)
     }
